@@ -7,5 +7,5 @@ type syntaxQueryParamLiteral struct {
 func (l *syntaxQueryParamLiteral) compute(
 	_ interface{}, _ []interface{}) []interface{} {
 
-	return l.literal
+	return []interface{}{l.literal[0]}
 }
